@@ -76,7 +76,6 @@ func init() {
 			"time.Unix(0, t.UnixNano()) == t for every non-zero time of the program (wall clock, years 1678-2262); Duration.String/ParseDuration and hex.EncodeToString/DecodeString are inverse (contracts/deps.spec)",
 		},
 		NotCovered: []string{
-			"the channel table (names, topics, members and their status, modes, keys, bans): Marshal/Unmarshal code for it is executed symbolically (its loops carry the other invariants) but no relation is stated for it",
 			"set-valued session fields Channels and invitedTo: proved for Unmarshal (the loaded sets are exactly the lowered names listed in the wire form); the matching obligation for Marshal (every key listed once) ran into a quantifier-instantiation loop in all three solvers and is not claimed",
 			"'from then on produces the same output for every continuation' is the consequence of state equality plus determinism (C01); it is not a separate obligation",
 			"serverSessions of a live server may also hold ids of services links that have ended (it is never pruned); the restored list holds exactly the live ones; they differ only in ids that address no live session",
@@ -85,12 +84,12 @@ func init() {
 	p.Prepare = func(e *vc.Engine) error {
 		p.Units = []UnitPlan{
 			{"ircserver.timestampToTime", post}, {"ircserver.timeToTimestamp", post},
-			{"ircserver.IRCServer.Marshal", g("sess")}, {"ircserver.IRCServer.Marshal", g("config")}, {"ircserver.IRCServer.Marshal", g("holds")},
+			{"ircserver.IRCServer.Marshal", g("sess")}, {"ircserver.IRCServer.Marshal", g("config")}, {"ircserver.IRCServer.Marshal", g("holds")}, {"ircserver.IRCServer.Marshal", g("chanw")}, {"ircserver.IRCServer.Marshal", g("chanwc")},
 			{"ircserver.IRCServer.Marshal", vc.UnitOpts{AssertsOnly: true, Groups: []string{"sess", "sessnicks"}}},
 			{"ircserver.IRCServer.Unmarshal", g("sessin", "sessrepr")}, {"ircserver.IRCServer.Unmarshal", g("sessin", "nicks")},
 			{"ircserver.IRCServer.Unmarshal", g("sessin", "services")}, {"ircserver.IRCServer.Unmarshal", g("sessin", "modes")},
 			{"ircserver.IRCServer.Unmarshal", g("sessin", "chans")},
-			{"ircserver.IRCServer.Unmarshal", g("config")}, {"ircserver.IRCServer.Unmarshal", g("holds")},
+			{"ircserver.IRCServer.Unmarshal", g("config")}, {"ircserver.IRCServer.Unmarshal", g("holds")}, {"ircserver.IRCServer.Unmarshal", g("chan", "channicks")},
 		}
 		return nil
 	}
@@ -104,11 +103,12 @@ func init() {
 			}},
 			{pkg: "config", typ: "Network", param: "c", preds: []string{"cfgRepr"}, excluded: map[string]string{}},
 			{pkg: "ircserver", typ: "svshold", param: "h", preds: []string{"holdRepr"}, excluded: map[string]string{}},
+			{pkg: "ircserver", typ: "channel", param: "c", preds: []string{"chanRepr", "chanNicksRepr"}, excluded: map[string]string{}},
 			{pkg: "ircserver", typ: "IRCServer", param: "i", preds: []string{"sessEntryOK", "wfNicksLoaded"}, excluded: map[string]string{
 				"sessionsMu": lock, "lastProcessedMu": lock, "ConfigMu": lock,
 				"serverSessions": "rebuilt on load: group 'services' of Unmarshal", "lastProcessed": "assert config-top of Marshal/Unmarshal",
 				"Config": "cfgRepr", "ServerPrefix": "constructor argument (-network_name), not state", "ServerCreation": "constructor argument (node-local start time), not replicated state",
-				"channels": "NOT COVERED: no relation stated", "svsholds": "holdsRepr (groups 'holds' of Marshal and Unmarshal)",
+				"channels": "chanRepr, chanNicksRepr (groups chanw/chanwc of Marshal, chan/channicks of Unmarshal)", "svsholds": "holdsRepr (groups 'holds' of Marshal and Unmarshal)",
 			}},
 		})
 	}
